@@ -104,14 +104,16 @@ func runC17(c *Ctx) {
 	}
 	// eTLD+1 helper by role: callee of NewRequest func(string) string other than the extractor
 	var etld *ssa.Function
-	eachInstr(nreq, func(_ *ssa.BasicBlock, in ssa.Instruction) {
-		if ci, ok := in.(ssa.CallInstruction); ok {
-			if cal := ci.Common().StaticCallee(); cal != nil && cal != ext && c.P.IsLibFunc(cal) && cal.Signature.Params().Len() == 1 &&
-				typeStr(cal.Signature.Params().At(0).Type()) == "string" && cal.Signature.Results().Len() == 1 && typeStr(cal.Signature.Results().At(0).Type()) == "string" {
-				etld = cal
+	for _, gf := range groupFuncs(c.P, nreq) {
+		eachInstr(gf, func(_ *ssa.BasicBlock, in ssa.Instruction) {
+			if ci, ok := in.(ssa.CallInstruction); ok {
+				if cal := ci.Common().StaticCallee(); cal != nil && cal != ext && c.P.IsLibFunc(cal) && !c.P.IsNewHelper(cal) && cal.Signature.Params().Len() == 1 &&
+					typeStr(cal.Signature.Params().At(0).Type()) == "string" && cal.Signature.Results().Len() == 1 && typeStr(cal.Signature.Results().At(0).Type()) == "string" {
+					etld = cal
+				}
 			}
-		}
-	})
+		})
+	}
 	if etld == nil {
 		c.Fail("C17.R2", "anchor:eTLD+1 helper", nreq.Pos(), "unresolved anchor: NewRequest calls no func(string) string besides the hostname extractor")
 		return
